@@ -18,6 +18,7 @@ func init() {
 			"unit types {0,1,19,32,33,34,39,47}, (layer,TID) in {(0,1),(1,7),(63,1)}, F = 0 (the parser rejects F = 1 payloads as corrupted), sizes {3,4,MTU-3..MTU+1,2MTU+1} (>= 3 bytes: at least one payload byte); MTU {4,5,6,7,8,9,16,100}, with AddDONL only MTU >= 6 (below that no FU can carry a byte)",
 			"wide scenario: every NAL type 0-47 x every layer id 0-63 (TID 1) and every TID 1-7 alone and next to a small unit; units of 300, 257*(MTU-3)+2 (more than 256 FUs), 66000 bytes for MTU {6,100,1200,65535}; all sequences of 5-7 units over {3B, MTU-2 B, MTU+1 B} with alternating layer ids; aggregation of units of {3,255,256,257,300} bytes at MTU {600,1200,65535}; 64-600 small units in one call (more than 256 units per aggregation packet)",
 			"large aggregation candidates: all sequences of 2-3 units of {3,20000,30000,32768,40000,65000} bytes at MTU {32767,32768,40000,65535}; unit bodies: EVERY body of 1-6 bytes (thorough 7) over {00,01,03,FF} that is legal inside a NAL unit (no 00 00 00 / 00 00 01, no trailing 00), between two other units, 3- and 4-byte start codes, MTU {6,100}",
+			"units with F = 1 go through the payloader alone (the library's parser rejects them): one unit per call, types {1,19,32}, every (layer,TID) of the alphabet, sizes {3, MTU, MTU+1, 3*MTU}, MTU {8,100}, without DONL; the single NAL unit packet must be the unit, every FU must carry F, layer id, TID and FuType of the unit, S first, E last, and the fragments must concatenate to the unit",
 			"DON values are not demanded, only their placement; the payloader's DONL in every FU (pinned by an existing test) is a listed known finding matched by an exact defect model",
 			"the four structure decoders (H265SingleNALUnitPacket, H265AggregationPacket, H265FragmentationUnitPacket, H265PACIPacket) are also called directly on the structure they are for, with the same oracle as H265Packet",
 			"a truncation must be rejected unless the prefix is itself well-formed under the reference parser",
@@ -27,6 +28,7 @@ func init() {
 			{Name: "all-types-large-units-long-sequences", Tiers: "qt", ShardDepth: 3, Run: c14Wide},
 			{Name: "reference-encoder-to-parser", Tiers: "qt", ShardDepth: 3, Run: c14Parser},
 			{Name: "unit-bodies-with-zero-and-one-bytes", Tiers: "qt", ShardDepth: 3, Run: c14Bodies},
+			{Name: "forbidden-bit-preserved-by-the-payloader", Tiers: "qt", ShardDepth: 3, Run: c14ForbiddenBit},
 			{Name: "bit-field-domains", Tiers: "qt", ShardDepth: 2, Run: c14Fields},
 		},
 	})
@@ -705,4 +707,54 @@ func c14Bodies(c *mc.Ctx) {
 	unit := append([]byte{19 << 1, 0x01}, body...)
 	units := [][]byte{ref.H265Unit(1, 0, 1, 4, 7), unit, ref.H265Unit(1, 0, 2, 3, 0xEE)}
 	c14Core(c, mtu, false, c.Bool(), units, []int{4, code, 7 - code})
+}
+
+// c14ForbiddenBit: "F/layer id/TID preserved" for units whose F bit is set. H265Packet rejects
+// such payloads, so the payloader's output is inspected directly.
+func c14ForbiddenBit(c *mc.Ctx) {
+	mtu := mc.From(c, []int{8, 100})
+	typ := mc.From(c, []uint8{1, 19, 32})
+	lt := mc.From(c, c14LTs)
+	size := mc.From(c, []int{3, mtu, mtu + 1, 3 * mtu})
+	skipAgg := c.Bool()
+	unit := ref.H265Unit(typ, lt.layer, lt.tid, size, 0x21)
+	unit[0] |= 0x80
+	if c.Verbose() {
+		c.Notef("mtu=%d SkipAggregation=%v unit with F=1: type %d layer %d tid %d, %d bytes", mtu, skipAgg, typ, lt.layer, lt.tid, size)
+	}
+	pl := &codecs.H265Payloader{SkipAggregation: skipAgg}
+	out := cloneAll(pl.Payload(uint16(mtu), ref.AnnexB([][]byte{unit}, []int{4})))
+	c.Ops(1)
+	desc := func() string {
+		return fmt.Sprintf("mtu=%d SkipAggregation=%v unit %s (F=1): payloads %s", mtu, skipAgg, hx(unit), hxs(out))
+	}
+	if len(out) == 0 {
+		c.Failf("units-differ", "%s: nothing was sent", desc())
+	}
+	if len(out) == 1 {
+		if !bytes.Equal(out[0], unit) {
+			c.Failf("units-differ", "%s: the single NAL unit packet is not the unit", desc())
+		}
+		c.Outcome("single")
+		return
+	}
+	var body []byte
+	for i, p := range out {
+		if len(p) < 4 || len(p) > mtu {
+			c.Failf("rfc7798-shape", "%s: FU %d has %d bytes", desc(), i, len(p))
+		}
+		f, t, layer, tid := ref.H265Hdr(p)
+		if !f || t != 49 || layer != lt.layer || tid != lt.tid {
+			c.Failf("fu-header", "%s: FU %d payload header F=%v type=%d layer=%d tid=%d, the unit has F=true layer=%d tid=%d", desc(), i, f, t, layer, tid, lt.layer, lt.tid)
+		}
+		if p[2]&0x3F != typ || (p[2]&0x80 != 0) != (i == 0) || (p[2]&0x40 != 0) != (i == len(out)-1) {
+			c.Failf("fu-header", "%s: FU %d has FU header %#02x (FuType %d expected, S on the first, E on the last of %d)", desc(), i, p[2], typ, len(out))
+		}
+		body = append(body, p[3:]...)
+	}
+	if !bytes.Equal(body, unit[2:]) {
+		c.Failf("units-differ", "%s: the fragments concatenate to %s", desc(), hx(body))
+	}
+	c.NonTrivial()
+	c.Outcome("fragmented")
 }
